@@ -93,6 +93,14 @@ def run(chk):
         K = r.choice([2, 3])
         per = [r.choice([1, 2, 3]) for _ in range(K)]
         classes = [fa.gen_stats(r, ubm, p) for p in per]
+        if i % 4 == 2:
+            # a session that puts NO mass on one Gaussian (hard zero count, as short sessions under a UBM with far-apart components give)
+            # while other sessions of the training set do
+            big = max(range(K), key=lambda k_: per[k_])
+            q0 = classes[big][0]
+            c0 = r.randrange(C)
+            q0.n, q0.sum_px, q0.sum_pxx = np.array(q0.n, dtype=float), np.array(q0.sum_px, dtype=float), np.array(q0.sum_pxx, dtype=float)
+            q0.n[c0], q0.sum_px[c0], q0.sum_pxx[c0] = 0.0, 0.0, 0.0
         X = [st for Xi in classes for st in Xi]
         y = np.array([k for k, p in enumerate(per) for _ in range(p)])
         if i % 2 == 1:
@@ -254,8 +262,8 @@ def run(chk):
             chk.sample({"C": C, "D": D, "rU": rU, "rV": rV, "classes": per, "iterations": iters, "marginal_trajectories": traj})
     bad, info = cq.run_cases("C09", fa.IMPORTS, "ft_case", "ft_check", terms, shard=20)
     chk.correspondence("JFAMachine.fit / ISVMachine.fit (statistics lists) ~ FF.jfa_fit / FF.isv_fit", len(terms), bad, info)
-    chk.partial = ["phase_v/u_monotone_partial: for rank > 1 the marginal contains ln det(I + W' S^-1 N W); monotonicity needs ln det A <= tr A - n and no determinant "
-                   "theory over R is installed - validated numerically (slogdet after every iteration, ranks 1-3)"]
+    chk.notes["rank > 1"] = ("V / U phase monotonicity is a theorem for any rank (Proofs/JFAGeneral.v: ln det through a Cholesky factor under a contract); "
+                             "the slogdet oracle of this run evaluates the same marginals numerically after every iteration, ranks 1-3")
     return chk.finish(
         rule="UBMs C<=2, D<=3, ranks 1-3 for U and V, 2-3 classes with 1-3 sessions each (fractional counts), 1-3 EM iterations (+2 more when stepping the public "
              "per-phase E/M functions); phase marginals computed independently (slogdet / closed form for the diagonal phase); distinct = (C,D,rU,rV,#classes)")
